@@ -70,6 +70,14 @@ func (f *Backquote) expand(s *slip.Scope, arg slip.Object, depth int) slip.Objec
 			}
 			arg = xl
 		}
+	case *Quote:
+		// A quoted form in a template is data like the rest of the
+		// template, only the commas inside of it are evaluated.
+		xl := slip.List{slip.Symbol("quote")}
+		if xa, ok := f.expand(s, ta.Args, depth).(slip.List); ok {
+			xl = append(xl, xa...)
+		}
+		arg = xl
 	case slip.Funky:
 		arg = arg.Eval(s, depth+1)
 	}
